@@ -21,6 +21,8 @@ ROUNDING_KERNELS = ['RoundingMode.*', 'U128.*', 'U192.*', 'U256.*', 'compose', '
 SPECROUND = ['D128.Proofs.SpecRound']
 KERNEL = ['D128.Proofs.RoundKernel', 'D128.Proofs.Words128', 'D128.Proofs.WordsWide', 'D128.Proofs.Encoding'] + SPECROUND
 PROLOGUE = ['D128.Props.C15']
+WIDE = ['D128.Proofs.WordsWidePow10', 'D128.Proofs.WordsWideMsd2', 'D128.Proofs.WordsWideMul', 'D128.Proofs.WordsWideShift', 'D128.Proofs.Words128Log', 'D128.Proofs.Words128Div']
+POW = ['D128.Props.C18']
 
 PROPS = {
     'C01': P('C01', 48000, 4000000, modules=['D128.Props.C01'] + KERNEL + PROLOGUE, kernel=ROUNDING_KERNELS + ['Decimal.add']),
@@ -31,16 +33,16 @@ PROPS = {
     'C06': P('C06', 16000, 1500000, modules=['D128.Props.C06', 'D128.Props.C05'] + KERNEL, kernel=['Decimal.digits_', 'U128.div100', 'parseNumber', 'RoundingMode.reduce128']),
     'C07': P('C07', 16000, 1500000, modules=['D128.Props.C07'], kernel=['digits.round', 'parseFormat', 'Decimal.digits_', 'formatArgs.*']),
     'C08': P('C08', 32000, 3000000, modules=['D128.Props.C08', 'D128.Props.C15'] + KERNEL, kernel=['RoundingMode.round', 'composeQuantum', 'U128.div10', 'U128.add64']),
-    'C09': P('C09', 16000, 1500000, modules=[] + KERNEL, kernel=['FromFloat64', 'FromFloat32', 'Decimal.Float64', 'Decimal.Float32', 'U256.lsh', 'U256.rsh', 'U256.div10', 'U256.mul64', 'U128.mul1e38', 'RoundingMode.reduce256'], kernel_n={Q: 4000, T: 400000}),
+    'C09': P('C09', 16000, 1500000, modules=[] + KERNEL + WIDE, kernel=['FromFloat64', 'FromFloat32', 'Decimal.Float64', 'Decimal.Float32', 'U256.lsh', 'U256.rsh', 'U256.div10', 'U256.mul64', 'U128.mul1e38', 'RoundingMode.reduce256'], kernel_n={Q: 4000, T: 400000}),
     'C10': P('C10', 32000, 3000000, modules=['D128.Props.C10', 'D128.Props.C02Quo'] + KERNEL, kernel=['U128.div10', 'U128.mul64', 'RoundingMode.reduce128', 'RoundingMode.round', 'Decimal.Int64_', 'Decimal.Uint64', 'Decimal.Int32_', 'Decimal.Uint32']),
     'C11': P('C11', 32000, 3000000, modules=['D128.Props.C11', 'D128.Props.C11b'] + KERNEL, kernel=['RoundingMode.reduce64', 'RoundingMode.reduce128', 'RoundingMode.round', 'U128.log10']),
     'C12': P('C12', 32000, 3000000, modules=['D128.Props.C12'], kernel=['compose', 'Decimal.decompose', 'Decimal.MarshalBinary', 'Decimal.UnmarshalBinary']),
     'C13': P('C13', 16000, 1500000, modules=['D128.Props.C05', 'D128.Props.C06'] + KERNEL, kernel=['parseNumber', 'Decimal.digits_', 'RoundingMode.reduce128']),
     'C14': P('C14', 16000, 1500000, modules=[]),
-    'C15': P('C15', 48000, 480000, modules=['D128.Props.C15'], kernel=['nan', 'inf', 'zero', 'one', 'Decimal.IsNaN', 'Decimal.isInf', 'Decimal.isSpecial', 'Decimal.IsZero']),
-    'C16': P('C16', 4800, 400000, modules=['D128.Props.C15'] + KERNEL, kernel=['decomposed192.*', 'U192.*', 'U384.*'], kernel_n={Q: 120, T: 8000}),
-    'C17': P('C17', 16000, 1000000, modules=['D128.Props.C15'] + KERNEL, kernel=['decomposed192.mul', 'decomposed192.quo', 'decomposed192.add', 'U192.div']),
-    'C18': P('C18', 3200, 300000, modules=['D128.Props.C18', 'D128.Props.C15'] + KERNEL, kernel=['decomposed192.log', 'decomposed192.epow', 'decomposed192.rcp', 'decomposed192.mul']),
+    'C15': P('C15', 48000, 480000, modules=['D128.Props.C15'] + POW, kernel=['nan', 'inf', 'zero', 'one', 'Decimal.IsNaN', 'Decimal.isInf', 'Decimal.isSpecial', 'Decimal.IsZero']),
+    'C16': P('C16', 4800, 400000, modules=['D128.Props.C15'] + KERNEL + WIDE, kernel=['decomposed192.*', 'U192.*', 'U384.*'], kernel_n={Q: 120, T: 8000}),
+    'C17': P('C17', 16000, 1000000, modules=['D128.Props.C15'] + KERNEL + WIDE, kernel=['decomposed192.mul', 'decomposed192.quo', 'decomposed192.add', 'U192.div']),
+    'C18': P('C18', 3200, 300000, modules=['D128.Props.C18', 'D128.Props.C15', 'D128.Props.C02Quo'] + KERNEL + WIDE, kernel=['decomposed192.log', 'decomposed192.epow', 'decomposed192.rcp', 'decomposed192.mul']),
     'C19': P('C19', 8000, 600000, modules=['D128.Props.C19', 'D128.Props.C01', 'D128.Props.C02', 'D128.Props.C02Quo', 'D128.Props.C04', 'D128.Props.C10', 'D128.Props.C11'], kernel=['Decimal.Canonical', 'U128.div10', 'U128.mul64']),
     'C20': P('C20', 3200, 100000, modules=['D128.Props.C20', 'D128.Gen.Facts'], race=True, spec_filter=r'undocumented panic|nondeterministic'),
 }
